@@ -282,6 +282,7 @@ def run(ctx):
             ctx.violation("c18.handling", hkey, "routed %s but handled %s: %s reach unreachable!() / are dropped" % (sorted(g), sorted(hs), sorted(set(g) ^ hs)), sc.fn.loc(ln))
     ctx.floor("c18.handling", "handling switches", nh, 3)
 
+    check_catalog_merge(ctx, prog)
     # ---------------- D4
     from ..spec.bdl_schema import ROWS
     now = attr_rows(prog)
@@ -396,6 +397,64 @@ def run(ctx):
                           "all shading in column 6 (columns 4 and 5 are the intermediate values), so the factor HULC computed is not the one recovered" % (a, b_), kp.loc(ln))
     else:
         raise AnalysisError("kyg::parse: the quotient of two parsed columns that gives F_sh;obst was not found (%d candidates)" % len(fsh))
+
+
+def _reaches_call(prog, sc, node, suffix):
+    """does the value reach the result of a call to the function `suffix` - directly, or as an element of a collection that does (loop elements are
+    followed to the collection they are taken from, parameters of an inlined helper bound to the caller's arguments)"""
+    from ..cfgq import ELEM_SOURCES, bind_args
+
+    def walk(n, depth=0):
+        if not isinstance(n, tuple) or not n or depth > 6:
+            return False
+        if n[0] == "call" and isinstance(n[1], str) and n[1].endswith(suffix):
+            return True
+        if n[0] == "elem":
+            for ch in ELEM_SOURCES.get((prog.root_of(sc.fn).id, n[1], n[2])) or []:
+                src = bind_args(ch.source, sc.argmap) if sc.argmap else ch.source
+                if walk(src, depth + 1):
+                    return True
+            return False
+        return any(walk(c, depth) for c in (n if isinstance(n[0], tuple) else n[1:]) if isinstance(c, tuple))
+    return walk(node)
+
+
+def check_catalog_merge(ctx, prog, rule="c18.catalog"):
+    """"the typed elements carry the written values": parse_with_catalog completes the project's material / construction / glass / frame tables with the
+    built-in LIDER catalogue.  A definition written in the project file must survive the merge: the catalogue may add names the project does not define, not
+    replace the ones it does.  `project_map.extend(catalogue_map)` and `project_map.insert(name, catalogue_entry)` replace the entry of the same name;
+    `project_map.entry(name).or_insert(catalogue_entry)` keeps it.  Which values come from the catalogue is decided by provenance (the expression, with the
+    parameters of private helpers bound at their call sites and loop elements rewritten to their sources, reaches the result of load_lider_catalog), not
+    by how anything is called."""
+    entry = prog.fn_by_path("hulc::ctehexml::parse_with_catalog")
+    loader = "ctehexml::load_lider_catalog"
+    ctx.require(any((callee_name(t) or "").endswith(loader) for sc in Scope(prog, entry).all_scopes() for _, t in sc.body.calls()),
+                "parse_with_catalog no longer reaches load_lider_catalog: how the catalogue gets into the project's tables was not recognised")
+    bad, good = 0, 0
+    for sc in Scope(prog, entry).all_scopes():
+        f = sc.fn
+        for b, t in sc.body.calls():
+            nm = callee_name(t) or ""
+            sh = short_callee(nm)
+            if sh not in ("extend", "insert", "or_insert", "or_insert_with", "append") or not ("Map" in nm or "map::" in nm):
+                continue
+            if not any(_reaches_call(prog, sc, sc.operand(a), loader) for a in t["args"][1:]):
+                continue
+            recv = strip(sc.operand(t["args"][0]))
+            if sh in ("or_insert", "or_insert_with"):
+                good += 1
+                continue
+            table = (show(strip(sc.eb.operand(t["args"][0]))).split(".")[-1] or "?").strip(")")
+            if _reaches_call(prog, sc, recv, loader):
+                continue        # the catalogue's own map being built, not the project's
+            bad += 1
+            ctx.violation(rule, "%s|%s" % (rule, table), "the catalogue's `%s` are merged into the project's with %s(): a catalogue entry replaces the project's definition of the "
+                          "same name, so what the project file says about it (dU and summer shading of a window construction, the g of a glass, a material's "
+                          "conductivity) is lost" % (table, sh), f.loc(t.get("ln")))
+    if bad == 0 and good >= 1:
+        ctx.ok(rule, rule + "|project-wins", "catalogue entries are added with entry(name).or_insert(..): the project's own definitions are kept (%d tables)" % good, None)
+    elif bad == 0:
+        raise AnalysisError("parse_with_catalog: how the catalogue is merged into the project's tables was not recognised")
 
 
 def check_parents(ctx, prog, fn, variants, spec, rule="c18.parent"):
